@@ -1475,6 +1475,64 @@ Proof.
   apply (mapped_not_unmapped n); [exact L4'|apply Hu; lia].
 Qed.
 
+(** the same when something else is mapped behind the run, as long as its
+    first address does not have the offset asked for (the kernel image behind
+    the riscv64 linear map) *)
+Theorem highest_linear_first_run fuel lf base top_ e :
+  page_down base = base -> page_down (top_ + 1) = top_ + 1 ->
+  base <= top_ -> top_ < limit -> limit < 2^64 ->
+  (top_ + 1) / 2^(total fs) = base / 2^(total fs) ->
+  (forall a, base <= a -> a <= top_ -> Mp a) ->
+  Up (top_ + 1) ->
+  ((forall a, top_ < a -> a <= limit -> a / 2^(total fs) = base / 2^(total fs) -> Up a) \/
+   (exists n2, top_ < n2 /\ Mp n2 /\ (forall a, top_ < a -> a < n2 -> Up a) /\
+               forall p, kv2kphys n2 = (OK, p) -> wsub p n2 <> off)) ->
+  highest_linear readmem m pf kv2kphys fuel lf base limit off = (OK, e) ->
+  e = top_ /\ exists p, kv2kphys base = (OK, p) /\ wsub p base = off.
+Proof.
+  intros Hb Ht Hbt Htl Hl64 Hspan Hm Hu1 Hafter H.
+  apply highest_linear_spec in H; [|lia].
+  inversion H as [| |from ans ret n p u e' Hleast Ekv Hoff Hend Hu64 Hrest]; subst.
+  destruct Hleast as (L0 & L1 & L2 & L3 & L4 & L5). rewrite Hb in L0, L5.
+  assert (n = base).
+  { destruct (N.eq_dec n base) as [|Hne]; [assumption|exfalso].
+    apply (mapped_not_unmapped base); [apply Hm; lia|apply L5; lia]. }
+  subst n. unfold run_end in Hend. rewrite Hb in Hend.
+  assert (u = top_ + 1).
+  { destruct Hend as [(E0 & E1 & E2 & E3 & E4)|(E0 & E1)].
+    - destruct (N.le_gt_cases u top_) as [Hle|Hgt].
+      { exfalso. apply (mapped_not_unmapped u); [apply Hm; lia|exact E3]. }
+      destruct (N.le_gt_cases u (top_ + 1)) as [Hle1|Hgt1]; [lia|exfalso].
+      apply (mapped_not_unmapped (top_ + 1)); [apply E4; lia|exact Hu1].
+    - exfalso. apply (mapped_not_unmapped (top_ + 1)); [apply E1; try lia; exact Hspan|exact Hu1]. }
+  subst u. split; [|exists p; auto].
+  assert (Hans : wsub (top_ + 1) 1 = top_).
+  { rewrite wsub_le; [lia|lia|rewrite W_pow; lia]. }
+  rewrite Hans in Hrest.
+  inversion Hrest as [| |from ans ret n q u e' Hleast' Ekv' Hoff' _ _ _]; subst; try reflexivity.
+  exfalso. destruct Hleast' as (L0' & L1' & L2' & L3' & L4' & L5'). rewrite Ht in L0', L5'.
+  destruct Hafter as [Hu|(n2 & N0 & N1 & N2 & N3)].
+  - apply (mapped_not_unmapped n); [exact L4'|apply Hu; try lia; now rewrite L3', Hspan].
+  - assert (n = n2).
+    { destruct (N.lt_trichotomy n n2) as [Hl|[He|Hg]]; [exfalso|exact He|exfalso].
+      - apply (mapped_not_unmapped n); [exact L4'|apply N2; lia].
+      - apply (mapped_not_unmapped n2); [exact N1|apply L5'; lia]. }
+    subst n. exact (N3 q Ekv' Hoff').
+Qed.
+
+(** [highest_mapped] finds the end of the last mapped run *)
+Theorem highest_mapped_finds lf last0 top_ s' r :
+  last0 < 2^64 -> top_ <= page_up last0 ->
+  (forall a, top_ < a -> a <= page_up last0 -> Up a) -> Mp top_ ->
+  highest_mapped readmem m pf lf last0 limit = (OK, s', r) -> r = top_.
+Proof.
+  intros H0 Hle Hu Hm H. pose proof (highest_mapped_spec lf last0 Hps H0) as Hs. rewrite H in Hs.
+  cbn [scan_post_d] in Hs. destruct Hs as (S0 & S1 & S3 & (S4 & S5) & S6).
+  destruct (N.lt_trichotomy r top_) as [Hlt'|[Heq|Hgt]]; [exfalso|exact Heq|exfalso].
+  - apply (mapped_not_unmapped top_); [exact Hm|apply S6; lia].
+  - apply (mapped_not_unmapped r); [eexists; exact S5|apply Hu; lia].
+Qed.
+
 (** [lowest_mapped] finds the start of the first mapped run *)
 Theorem lowest_mapped_finds lf first0 base s' r :
   first0 < 2^64 -> page_down first0 <= base ->
